@@ -78,7 +78,7 @@ Lemma step_flag_commute : forall cls st f c, is_flag_call f = true ->
   step2 cls st f c = step2 cls st c f.
 Proof.
   intros cls st f c Hf Hc. destruct st as [tb tmp unl sel cols pers sv pk uqs ine fk loc prs].
-  destruct f; try discriminate; destruct c; try discriminate; unfold step2; simpl; unfold pk_truthy, fk_truthy; simpl;
+  destruct f; try discriminate; destruct c; try discriminate; unfold step2; simpl; unfold pk_set, fk_set; simpl;
     repeat match goal with
            | |- context [if ?b then _ else _] => destruct b eqn:?; simpl
            end; try reflexivity; try discriminate.
@@ -156,8 +156,8 @@ Qed.
 (* ---------- once-only guards ---------- *)
 Theorem create_guards : forall cls st,
   (forall t, is_some (s_table st) = true -> step cls st (KCreateTable t) = Err "AttributeError")
-  /\ (forall ns, pk_truthy st = true -> step cls st (KPrimaryKey ns) = Err "AttributeError")
-  /\ (forall a t b od ou, fk_truthy st = true -> step cls st (KForeignKey a t b od ou) = Err "AttributeError")
+  /\ (forall ns, pk_set st = true -> step cls st (KPrimaryKey ns) = Err "AttributeError")
+  /\ (forall a t b od ou, fk_set st = true -> step cls st (KForeignKey a t b od ou) = Err "AttributeError")
   /\ (forall cs, is_some (s_as_select st) = true -> step cls st (KColumns cs) = Err "AttributeError")
   /\ (forall q, nonempty (s_columns st) = true -> step cls st (KAsSelect q) = Err "AttributeError")
   /\ ((has_vertica_flags cls && s_temporary st)%bool = false ->
